@@ -71,12 +71,78 @@ def cfg_ops(rng, quick):
     return out
 
 
+def _pair_shape(rng, user):
+    """a request shape for one side of an overlapping pair: what decorate() keeps per REQUEST (no backend-down state, no
+    closed limiter, no deny-list edit: those are state shared by both requests)"""
+    r = rng.random()
+    if r < 0.55:
+        return ["POST", "none", "1", "none", "none", rng.choice(["valid", "invalid"]), "1"]
+    if r < 0.65:
+        return ["POST", "none", "1", "none", "none", "none", "1"]
+    if r < 0.85:
+        ck = g.good_cookie(rng, user=user) if rng.random() < 0.6 else rng.choice(g.BAD_COOKIES) % g.level(rng, 0.4)
+        return ["POST", "none", "1", "none", ck.replace(":alice", ":" + user), "none", "1"]
+    sh = g.shape(rng)
+    sh[3] = sh[3].replace(":denied", "")
+    sh[5] = "valid" if sh[5] == "error" else sh[5]
+    sh[6] = "1"
+    return sh
+
+
+def overlap_ops(rng, quick):
+    """two requests in flight at once, the first parked inside the password backend when the second arrives: every
+    pairing of (right password, wrong password, no credential, session cookie) for the same user first, then random
+    pairs. Each request is judged alone, on what it carries."""
+    out = []
+    basic = lambda b: "POST none 1 none none %s 1" % b
+    none = "POST none 1 none none none 1"
+    for allowed in ["password", "password,U2F", "TOTP,password"]:
+        for a, b in [("valid", "invalid"), ("invalid", "valid"), ("valid", "valid"), ("invalid", "invalid")]:
+            for ct in ["ssh", "x509"]:
+                out.append("cgov %s username %s %s %s" % (allowed, ct, basic(a), basic(b)))
+        out.append("cgov %s username ssh %s %s" % (allowed, basic("valid"), none))
+        out.append("cgov %s username ssh %s POST none 1 none auth:foreign:ok:ok:past:future:2:username none 1" % (allowed, basic("valid")))
+        out.append("cgov %s username x509 %s POST none 1 none auth:ok:ok:ok:past:past:2:username none 1" % (allowed, basic("valid")))
+        out.append("cgov %s username ssh POST none 1 none auth:ok:ok:ok:past:future:2:username none 1 %s" % (allowed, basic("invalid")))
+    out.append("cgov TOTP username ssh %s %s" % (basic("valid"), basic("invalid")))
+    for _ in range(60 if quick else 600):
+        user = rng.choice(["username"] * 5 + ["alice"])
+        allowed = g.allowed(rng)
+        if rng.random() < 0.6 and "password" not in allowed:
+            allowed.append("password")
+        out.append("cgov %s %s %s %s %s" % (",".join(allowed) or "-", user, rng.choice(["ssh", "x509", "x509-kubernetes"]),
+                                           " ".join(_pair_shape(rng, user)), " ".join(_pair_shape(rng, user))))
+    return out
+
+
+def expiry_ops(rng, quick):
+    """the same session cookie presented while valid and again after its expiry (`soon` = over within 2 s; the harness
+    serves all first presentations, sleeps once past the latest expiry, then presents every cookie again)"""
+    out = []
+    for allowed, lvl in [("TOTP", 66), ("U2F", 10), ("password", 2), ("password,TOTP", 66), ("Okta2FA", 130), ("U2F", 2), ("-", 10)]:
+        for ct in ["ssh", "x509"]:
+            out.append("cgexp %s alice %s POST none 1 none auth:ok:ok:ok:past:soon:%d:alice none 1" % (allowed, ct, lvl))
+    out.append("cgexp TOTP alice ssh POST none 1 none auth:foreign:ok:ok:past:soon:66:alice none 1")
+    out.append("cgexp TOTP alice ssh POST none 1 none cli:ok:ok:ok:past:soon:66:alice none 1")
+    out.append("cgexp TOTP bob ssh POST none 1 none auth:ok:ok:ok:past:soon:66:alice none 1")
+    for _ in range(40 if quick else 400):
+        f = gen_op(rng).split()
+        user = rng.choice(["alice"] * 4 + ["bob"])
+        lvl = g.level(rng, 0.35) | (rng.choice([2, 8, 64, 16, 128, 1024]) if rng.random() < 0.7 else 0)
+        kind, sig = ("auth", "ok") if rng.random() < 0.85 else rng.choice([("cli", "ok"), ("auth", "foreign"), ("storage", "ok")])
+        out.append("cgexp %s %s %s POST none 1 none %s:%s:ok:ok:past:soon:%d:%s none 1" % (
+            f[1], user, rng.choice(["ssh", "x509", "x509-kubernetes"]), kind, sig, lvl, user))
+    return out
+
+
 def run(ctx):
     facts = c.regen(ctx)
     c.prove(ctx)
     rng = ctx.rng
     n = 3000 if ctx.quick() else 60000
     ops = list(CORPUS) + [gen_op(rng) for _ in range(n)] + cfg_ops(rng, ctx.quick())
+    # round 5: histories — overlapping pairs (first parked inside the password backend), one cookie before/after expiry
+    ops += overlap_ops(rng, ctx.quick()) + expiry_ops(rng, ctx.quick())
     impl, log, rc = c.run_harness(ctx, "cmd/keymasterd", "C01", ops, timeout=1500)
     if rc != 0 or len(impl) != len(ops):
         ctx.broken.append("harness TestVerifC01 did not complete (exit %d, %d/%d lines)" % (rc, len(impl), len(ops)))
@@ -88,33 +154,53 @@ def run(ctx):
     hist = collections.Counter()
     dis = []
     issued = set()
-    for o, a, b, j in zip(ops, impl, model, verdict):
-        f = a.split()
-        hist[" ".join(f[:2]) if f[0] == "refused" else f[0]] += 1
-        if f[0] == "issued":
-            issued.add(o)
-        # judge: the property's predicate on what the real handler did
-        if f[0] == "issued" and not j.startswith("issued"):
-            c.add_violation(ctx, "issued:" + " ".join(o.split()[1:]),
-                            "real certGenHandler issued a certificate (%s) where the proved decision refuses (%s)" % (a, j),
-                            {"op": o, "impl": a, "model": b, "judge": j})
-        elif f[0] == "issued" and a != j:
-            c.add_violation(ctx, "principal:" + " ".join(o.split()[1:]), "issued for another principal: impl %s judge %s" % (a, j),
-                            {"op": o, "impl": a, "model": b, "judge": j})
-        elif f[0] in ("noresponse", "refused-but-signed", "panic") or (f[0] == "refused" and int(f[1]) < 400):
-            c.add_violation(ctx, "no-error:" + " ".join(o.split()[1:]),
-                            "request that is not served did not receive an error status: %s" % a,
-                            {"op": o, "impl": a, "model": b})
-        elif a != b:
-            dis.append((o, a, b))
+    hist_names = {"cgov": ["first (parked inside the password backend)", "second (served meanwhile)"],
+                  "cgexp": ["while the cookie is valid", "the same cookie after its expiry"]}
+    for o, a_all, b_all, j_all in zip(ops, impl, model, verdict):
+        kind = o.split()[0]
+        if kind in hist_names:
+            parts = [x.split(" | ") for x in (a_all, b_all, j_all)]
+            if not all(len(x) == 2 for x in parts):
+                dis.append((o, a_all, b_all))
+                continue
+            hist[kind + ":" + " | ".join(x.split()[0] for x in parts[0])] += 1
+            each = [(parts[0][i], parts[1][i], parts[2][i], " [request %d of the history: %s]" % (i + 1, hist_names[kind][i])) for i in range(2)]
+        else:
+            each = [(a_all, b_all, j_all, "")]
+        mism = False
+        keyf = " ".join(o.split() if kind in hist_names else o.split()[1:])
+        for a, b, j, where in each:
+            f = a.split()
+            if not where:
+                hist[" ".join(f[:2]) if f[0] == "refused" else f[0]] += 1
+            if f[0] == "issued":
+                issued.add(o + where)
+            # judge: the property's predicate on what the real handler did
+            if f[0] == "issued" and not j.startswith("issued"):
+                c.add_violation(ctx, "issued:" + keyf,
+                                "real certGenHandler issued a certificate (%s) where the proved decision refuses (%s)%s" % (a, j, where),
+                                {"op": o, "impl": a_all, "model": b_all, "judge": j_all})
+            elif f[0] == "issued" and a != j:
+                c.add_violation(ctx, "principal:" + keyf, "issued for another principal: impl %s judge %s%s" % (a, j, where),
+                                {"op": o, "impl": a_all, "model": b_all, "judge": j_all})
+            elif f[0] in ("noresponse", "refused-but-signed", "panic", "hung") or (f[0] == "refused" and int(f[1]) < 400):
+                c.add_violation(ctx, "no-error:" + keyf,
+                                "request that is not served did not receive an error status: %s%s" % (a, where),
+                                {"op": o, "impl": a_all, "model": b_all})
+            elif a != b:
+                mism = True
+        if mism:
+            dis.append((o, a_all, b_all))
     if dis:
         ctx.broken.append("correspondence certGenHandler vs KM.CertGen.decide: %d/%d ops disagree, first: op=%r impl=%r model=%r" % (
             len(dis), len(ops), dis[0][0], dis[0][1], dis[0][2]))
     ctx.coverage.update({
         "evaluations": len(ops), "distinct_nontrivial": len(issued),
-        "rule": "requests to the real certGenHandler: operator list (any subset of the 9 method names) x sealed x target user x cert type x key validity x request shape (method, origin, host, TLS chain kind/shape/deny, cookie claims incl. arbitrary level bit sets, basic-auth, limiter); non-trivial = distinct ops for which a certificate was actually issued",
+        "rule": "requests to the real certGenHandler: operator list (any subset of the 9 method names) x sealed x target user x cert type x key validity x request shape (method, origin, host, TLS chain kind/shape/deny, cookie claims incl. arbitrary level bit sets, basic-auth, limiter); histories: pairs of overlapping requests with the first parked inside the password backend, and one session cookie presented before and after its expiry; non-trivial = distinct ops for which a certificate was actually issued",
         "outcome_histogram": dict(hist), "clauses": facts.get("c01"),
         "config_file_loaded_ops": sum(1 for o in ops if o.startswith("cfgcg")),
+        "overlapping_pairs": sum(1 for o in ops if o.startswith("cgov")),
+        "before_after_expiry_histories": sum(1 for o in ops if o.startswith("cgexp")),
         "config_file_loaded_issued": sum(1 for o in issued if o.startswith("cfgcg")),
         "samples": [{"op": o, "impl": a, "model": b} for o, a, b in list(zip(ops, impl, model))[:5]],
     })
